@@ -50,6 +50,9 @@ pub struct KeySel {
     pub tweak: Option<u8>,
 }
 
+/// index into the key pool of the case
+pub type KeyIx = u16;
+
 #[derive(Debug, Clone, Serialize, Deserialize)]
 pub enum How {
     /// the value itself
@@ -80,6 +83,9 @@ impl World {
     }
     fn vi(&self, i: u16) -> usize {
         pick_idx(i, self.vals.len())
+    }
+    fn sel<'a>(&self, pool: &'a [KeySel], i: KeyIx) -> &'a KeySel {
+        &pool[pick_idx(i, pool.len())]
     }
     fn key(&self, k: &KeySel) -> [u8; 16] {
         let mut d = self.digests[self.vi(k.val)];
@@ -142,20 +148,21 @@ fn disk_cfg(dir: &Path) -> DiskCacheConfig {
 
 #[derive(Debug, Clone, Serialize, Deserialize)]
 pub enum CacOp {
-    PutValidated { key: KeySel, how: How },
+    PutValidated { key: KeyIx, how: How },
     /// `inner.put` under the same BlteBlockKey, behind the validating wrapper's back
-    InnerPut { key: KeySel, how: How },
+    InnerPut { key: KeyIx, how: How },
     /// overwrite / create the disk layer's value file (memory backend: same as InnerPut)
-    FileWrite { key: KeySel, how: How },
+    FileWrite { key: KeyIx, how: How },
     /// truncate the disk layer's value file (memory backend: InnerPut of the prefix)
-    FileTruncate { key: KeySel, sel: u32 },
-    Get { key: KeySel },
+    FileTruncate { key: KeyIx, sel: u32 },
+    Get { key: KeyIx },
 }
 
 #[derive(Debug, Clone, Serialize, Deserialize)]
 pub struct CacCase {
     pub disk: bool,
     pub vals: Vec<Val>,
+    pub keys: Vec<KeySel>,
     pub ops: Vec<CacOp>,
 }
 
@@ -206,7 +213,7 @@ impl Inner {
 }
 
 pub fn check_cac(c: &CacCase) -> Verdict {
-    if c.vals.is_empty() {
+    if c.vals.is_empty() || c.keys.is_empty() {
         return Verdict::pass();
     }
     let w = World::new(&c.vals);
@@ -238,8 +245,11 @@ pub fn check_cac(c: &CacCase) -> Verdict {
     let mut detected = 0u32;
     let mut clean_hits = 0u32;
     for (n, op) in c.ops.iter().enumerate() {
+        let key = match op {
+            CacOp::PutValidated { key, .. } | CacOp::InnerPut { key, .. } | CacOp::FileWrite { key, .. } | CacOp::FileTruncate { key, .. } | CacOp::Get { key } => w.sel(&c.keys, *key),
+        };
         match op {
-            CacOp::PutValidated { key, how } => {
+            CacOp::PutValidated { how, .. } => {
                 let (k, d) = (w.key(key), w.data(key, how));
                 let ok = valid(&k, &d);
                 let r = rt.block_on(sut.put_validated(k, &d));
@@ -268,13 +278,13 @@ pub fn check_cac(c: &CacCase) -> Verdict {
                     }
                 }
             }
-            CacOp::InnerPut { key, how } => {
+            CacOp::InnerPut { how, .. } => {
                 let (k, d) = (w.key(key), w.data(key, how));
                 if rt.block_on(sut.raw_put(k, &d)).is_ok() {
                     model.insert(k, d);
                 }
             }
-            CacOp::FileWrite { key, how } => {
+            CacOp::FileWrite { how, .. } => {
                 let (k, d) = (w.key(key), w.data(key, how));
                 match sut.file(k) {
                     Some(p) => {
@@ -290,7 +300,7 @@ pub fn check_cac(c: &CacCase) -> Verdict {
                     }
                 }
             }
-            CacOp::FileTruncate { key, sel } => {
+            CacOp::FileTruncate { sel, .. } => {
                 let k = w.key(key);
                 let Some(cur) = model.get(&k).cloned() else { continue };
                 if cur.is_empty() {
@@ -311,7 +321,7 @@ pub fn check_cac(c: &CacCase) -> Verdict {
                     }
                 }
             }
-            CacOp::Get { key } => {
+            CacOp::Get { .. } => {
                 let k = w.key(key);
                 let stored_bad = model.get(&k).is_some_and(|d| !valid(&k, d));
                 match rt.block_on(sut.get_validated(k)) {
@@ -361,12 +371,12 @@ impl CacheKey for SKey {
 
 #[derive(Debug, Clone, Serialize, Deserialize)]
 pub enum MlOp {
-    PutValidated { key: KeySel, how: How },
+    PutValidated { key: KeyIx, how: How },
     /// `put_to_layer`: any bytes into any layer under the same cache key
-    LayerPut { key: KeySel, how: How, layer: u8 },
-    FileWrite { key: KeySel, how: How },
-    FileTruncate { key: KeySel, sel: u32 },
-    Get { key: KeySel },
+    LayerPut { key: KeyIx, how: How, layer: u8 },
+    FileWrite { key: KeyIx, how: How },
+    FileTruncate { key: KeyIx, sel: u32 },
+    Get { key: KeyIx },
 }
 
 #[derive(Debug, Clone, Serialize, Deserialize)]
@@ -376,6 +386,7 @@ pub struct MlCase {
     /// NgdpValidationHooks instead of Md5ValidationHooks
     pub ngdp_hooks: bool,
     pub vals: Vec<Val>,
+    pub keys: Vec<KeySel>,
     pub ops: Vec<MlOp>,
 }
 
@@ -391,7 +402,7 @@ pub fn check_ml(c: &MlCase) -> Verdict {
 }
 
 fn check_ml_inner(c: &MlCase) -> Verdict {
-    if c.vals.is_empty() {
+    if c.vals.is_empty() || c.keys.is_empty() {
         return Verdict::pass();
     }
     let w = World::new(&c.vals);
@@ -419,8 +430,11 @@ fn check_ml_inner(c: &MlCase) -> Verdict {
     let mut v = Verdict::pass();
     let (mut detected, mut clean_hits, mut detected_lower, mut removed_multi) = (0u32, 0u32, 0u32, 0u32);
     for (n, op) in c.ops.iter().enumerate() {
+        let key = match op {
+            MlOp::PutValidated { key, .. } | MlOp::LayerPut { key, .. } | MlOp::FileWrite { key, .. } | MlOp::FileTruncate { key, .. } | MlOp::Get { key } => w.sel(&c.keys, *key),
+        };
         match op {
-            MlOp::PutValidated { key, how } => {
+            MlOp::PutValidated { how, .. } => {
                 let (k, d) = (w.key(key), w.data(key, how));
                 let ok = valid(&k, &d);
                 let r = rt.block_on(cache.put_with_validation(name(&k), ContentKey::from_bytes(k), Bytes::copy_from_slice(&d)));
@@ -449,21 +463,21 @@ fn check_ml_inner(c: &MlCase) -> Verdict {
                     }
                 }
             }
-            MlOp::LayerPut { key, how, layer } => {
+            MlOp::LayerPut { how, layer, .. } => {
                 let (k, d) = (w.key(key), w.data(key, how));
                 let l = pick_idx(u16::from(*layer) << 8, layers);
                 if rt.block_on(cache.put_to_layer(name(&k), Bytes::copy_from_slice(&d), l)).is_ok() {
                     model[l].insert(k, d);
                 }
             }
-            MlOp::FileWrite { key, how } => {
+            MlOp::FileWrite { how, .. } => {
                 let (k, d) = (w.key(key), w.data(key, how));
                 if std::fs::write(dir.path().join(hex::encode(k)), &d).is_ok() {
                     model[layers - 1].insert(k, d);
                     v = v.class("file-overwritten");
                 }
             }
-            MlOp::FileTruncate { key, sel } => {
+            MlOp::FileTruncate { sel, .. } => {
                 let k = w.key(key);
                 let Some(cur) = model[layers - 1].get(&k).cloned() else { continue };
                 if cur.is_empty() {
@@ -476,7 +490,7 @@ fn check_ml_inner(c: &MlCase) -> Verdict {
                     v = v.class("file-truncated");
                 }
             }
-            MlOp::Get { key } => {
+            MlOp::Get { .. } => {
                 let k = w.key(key);
                 let first = (0..layers).find(|&l| model[l].contains_key(&k));
                 let stored_bad = first.is_some_and(|l| !valid(&k, &model[l][&k]));
@@ -612,7 +626,15 @@ fn small_val_strategy() -> impl Strategy<Value = Val> {
 }
 
 fn key_strategy() -> impl Strategy<Value = KeySel> {
-    (any::<u16>(), prop_oneof![5 => Just(None), 1 => (0u8..128).prop_map(Some), 1 => (32u8..128).prop_map(Some)]).prop_map(|(val, tweak)| KeySel { val, tweak })
+    (any::<u16>(), prop_oneof![4 => Just(None), 1 => (0u8..128).prop_map(Some), 1 => (32u8..128).prop_map(Some)]).prop_map(|(val, tweak)| KeySel { val, tweak })
+}
+
+fn key_pool() -> impl Strategy<Value = Vec<KeySel>> {
+    proptest::collection::vec(key_strategy(), 1..=4)
+}
+
+fn kix() -> impl Strategy<Value = KeyIx> {
+    any::<u16>()
 }
 
 fn bad_how() -> impl Strategy<Value = How> {
@@ -632,25 +654,27 @@ fn any_how() -> impl Strategy<Value = How> {
 
 pub fn cac_strategy() -> BoxedStrategy<CacCase> {
     let op = prop_oneof![
-        4 => (key_strategy(), any_how()).prop_map(|(key, how)| CacOp::PutValidated { key, how }),
-        3 => (key_strategy(), prop_oneof![1 => Just(How::Good), 4 => bad_how()]).prop_map(|(key, how)| CacOp::InnerPut { key, how }),
-        2 => (key_strategy(), prop_oneof![1 => Just(How::Good), 4 => bad_how()]).prop_map(|(key, how)| CacOp::FileWrite { key, how }),
-        1 => (key_strategy(), any::<u32>()).prop_map(|(key, sel)| CacOp::FileTruncate { key, sel }),
-        6 => key_strategy().prop_map(|key| CacOp::Get { key }),
+        4 => (kix(), any_how()).prop_map(|(key, how)| CacOp::PutValidated { key, how }),
+        3 => (kix(), prop_oneof![2 => Just(How::Good), 4 => bad_how()]).prop_map(|(key, how)| CacOp::InnerPut { key, how }),
+        2 => (kix(), prop_oneof![2 => Just(How::Good), 4 => bad_how()]).prop_map(|(key, how)| CacOp::FileWrite { key, how }),
+        1 => (kix(), any::<u32>()).prop_map(|(key, sel)| CacOp::FileTruncate { key, sel }),
+        6 => kix().prop_map(|key| CacOp::Get { key }),
     ];
-    (any::<bool>(), proptest::collection::vec(small_val_strategy(), 1..=3), proptest::collection::vec(op, 1..24)).prop_map(|(disk, vals, ops)| CacCase { disk, vals, ops }).boxed()
+    (any::<bool>(), proptest::collection::vec(small_val_strategy(), 1..=3), key_pool(), proptest::collection::vec(op, 1..24))
+        .prop_map(|(disk, vals, keys, ops)| CacCase { disk, vals, keys, ops })
+        .boxed()
 }
 
 pub fn ml_strategy() -> BoxedStrategy<MlCase> {
     let op = prop_oneof![
-        4 => (key_strategy(), any_how()).prop_map(|(key, how)| MlOp::PutValidated { key, how }),
-        4 => (key_strategy(), prop_oneof![2 => Just(How::Good), 4 => bad_how()], any::<u8>()).prop_map(|(key, how, layer)| MlOp::LayerPut { key, how, layer }),
-        2 => (key_strategy(), prop_oneof![1 => Just(How::Good), 4 => bad_how()]).prop_map(|(key, how)| MlOp::FileWrite { key, how }),
-        1 => (key_strategy(), any::<u32>()).prop_map(|(key, sel)| MlOp::FileTruncate { key, sel }),
-        6 => key_strategy().prop_map(|key| MlOp::Get { key }),
+        4 => (kix(), any_how()).prop_map(|(key, how)| MlOp::PutValidated { key, how }),
+        4 => (kix(), prop_oneof![2 => Just(How::Good), 4 => bad_how()], any::<u8>()).prop_map(|(key, how, layer)| MlOp::LayerPut { key, how, layer }),
+        2 => (kix(), prop_oneof![2 => Just(How::Good), 4 => bad_how()]).prop_map(|(key, how)| MlOp::FileWrite { key, how }),
+        1 => (kix(), any::<u32>()).prop_map(|(key, sel)| MlOp::FileTruncate { key, sel }),
+        6 => kix().prop_map(|key| MlOp::Get { key }),
     ];
-    (any::<bool>(), any::<bool>(), proptest::collection::vec(small_val_strategy(), 1..=3), proptest::collection::vec(op, 1..24))
-        .prop_map(|(three, ngdp_hooks, vals, ops)| MlCase { three, ngdp_hooks, vals, ops })
+    (any::<bool>(), any::<bool>(), proptest::collection::vec(small_val_strategy(), 1..=3), key_pool(), proptest::collection::vec(op, 1..24))
+        .prop_map(|(three, ngdp_hooks, vals, keys, ops)| MlCase { three, ngdp_hooks, vals, keys, ops })
         .boxed()
 }
 
